@@ -25,13 +25,27 @@ def judge(v, ob, modern, case):
             v.violation("zero-copy decoder rejects a modern-tag input that the owned decoder accepts", {**case, "obs": ob})
 
 
+def history(v, obs):
+    """the last record of the run: every vector decoded again after a history of rejected inputs on the same thread"""
+    h = [o for o in obs if o["id"] == "__history__"]
+    if len(h) != 1 or h[0]["rejected_inputs_fed"] < 1000:
+        raise lib.ToolError("history phase of the harness did not run")
+    v.case("history")
+    for c in h[0]["changed"]:
+        v.violation("decoding is not a function of the bytes: after a history of rejected inputs (too deeply nested terms, truncations, oversized counts) on the same thread "
+                    "a valid encoding decodes differently than before", c)
+    v.cov["vectors_decoded_again_after_rejected_inputs"] = h[0]["vectors"]
+    return [o for o in obs if o["id"] != "__history__"]
+
+
 def run(tier, seed):
     v = lib.Verdict(PID, tier, seed, "exploration")
     thorough = tier == "thorough"
     vp, recs, unenc = E.gen_vectors(PID, "D2", alts=True, heavy=False)
     recs_only = os.path.join(lib.outdir(PID), "vectors_only.ndjson")
     lib.write_ndjson(recs_only, recs)
-    obs = E.run_obs(PID, recs_only, {"borrowed": True, "trunc": True, "mutate": 60 if thorough else 8, "seed": seed})
+    obs = E.run_obs(PID, recs_only, {"borrowed": True, "trunc": True, "mutate": 60 if thorough else 8, "seed": seed, "history": True})
+    obs = history(v, obs)
     by_id = {r["id"]: r for r in recs}
     fuzz_inputs = 0
     fuzz_bor_ok = 0
